@@ -12,8 +12,13 @@ pub mod polling {
         { unimplemented!() }
     }
     /// opaque: the kernel's interest table lives behind &self (DESIGN 1.4)
-    #[verifier::external_body] pub struct Poller { _p: () }
-    #[verifier::external_body] pub struct Events { _p: () }
+    #[verifier::external_body] #[derive(Debug)] pub struct Poller { _p: () }
+    #[verifier::external_body] #[derive(Debug)] pub struct Events { _p: () }
+    impl Poller {
+        /// ASSUMED: removes the source from the kernel's interest list; may fail. No visible state (DESIGN 1.4).
+        #[verifier::external_body]
+        pub fn delete(&self, source: impl std::os::unix::io::AsFd) -> (r: std::io::Result<()>) { unimplemented!() }
+    }
     #[derive(Clone, Copy)]
     pub enum PollMode { Oneshot, Level, Edge, EdgeOneshot }
 }
